@@ -18,6 +18,10 @@ Definition opt_str_eqb (x y : option str) : bool :=
   | _, _ => false
   end.
 
+(* resolver tables shared by many cases, with the per-case oracle for IPv6 texts *)
+Definition env_with (e : env) (ip6 : list (str * list N)) (cidr6 : list (str * (list N * list N))) : env :=
+  {| e_dns4 := e_dns4 e; e_dns := e_dns e; e_myip := e_myip e; e_myipex := e_myipex e; e_ip6 := ip6; e_cidr6 := cidr6 |}.
+
 (* ---- evaluation of a generated script through pac.ProxyResolver ---- *)
 Record ecase := {
   ec_tree : tree;                  (* body of the entry point *)
@@ -49,6 +53,13 @@ Definition ecase_outside (c : ecase) : bool :=
   | Some PacOutside, _ | _, Some PacOutside => true
   | _, _ => false
   end.
+
+(* one pass per case: bit 0 = correspondence fails, bit 1 = oracle fails, bit 2 = outside the reference's domain *)
+Definition ecase_code (c : ecase) : N :=
+  let m := run_case call_helper c in
+  let s := run_case spec_call c in
+  (if observed_is c m then 0 else 1) + (if observed_is c s then 0 else 2) +
+  (match m, s with Some PacOutside, _ | _, Some PacOutside => 4 | _, _ => 0 end).
 
 (* ---- sortIpAddressList, modulo the order of entries that compare equal ---- *)
 Record scase := {
